@@ -348,9 +348,12 @@ func ciRegex(s string) *Term {
 	var parts []*Term
 	for i := 0; i < len(s); i++ {
 		c := s[i]
-		if c >= 'a' && c <= 'z' {
+		switch {
+		case c >= 'a' && c <= 'z':
 			parts = append(parts, reUnion(reLit(string([]byte{c})), reLit(string([]byte{c - 32}))))
-		} else {
+		case c >= 'A' && c <= 'Z':
+			parts = append(parts, reUnion(reLit(string([]byte{c + 32})), reLit(string([]byte{c}))))
+		default:
 			parts = append(parts, reLit(string([]byte{c})))
 		}
 	}
